@@ -269,6 +269,26 @@ func runC02(o *Out) {
 			}
 		}
 	}
+	// hosts and guests without a feature table, in every combination
+	for _, hasHF := range []bool{false, true} {
+		for _, hasGF := range []bool{false, true} {
+			for i := 0; i <= L; i += 2 {
+				var hf, gf gts.FeatureSlice
+				if hasHF {
+					hf = hf.Insert(mkFeat("hostf", gts.Range(1, 6)))
+				}
+				if hasGF {
+					gf = gf.Insert(mkFeat("guestf", gts.Range(0, 2)))
+				}
+				hs := gts.New(nil, hf, append([]byte(nil), host...))
+				gs := gts.New(nil, gf, []byte("XXX"))
+				for _, op := range []string{"seq_insert", "seq_embed"} {
+					res := o.Run(op+"-bare", true, op, seqSx(hs), itoa(i), seqSx(gs))
+					checkInsertSeq(o, op, hs, i, gs, res)
+				}
+			}
+		}
+	}
 	// random tables
 	nr := 300
 	if o.Tier == "thorough" {
@@ -1003,7 +1023,35 @@ func runC05(o *Out) {
 			gts.Complemented{Location: gts.Order(pl[k+4], pl[k+2], pl[k])})
 	}
 	fam = dedupLocs(fam)
-	seqb := []byte("acgtryka")
+	// Complement on residues: an involution over the whole IUPAC alphabet in both
+	// cases, every other byte unchanged; it pairs each code with the code of the
+	// complementary base set (written out here, independent of the table in nucleotide.go)
+	pairs := map[byte]byte{'a': 't', 'c': 'g', 'g': 'c', 't': 'a', 'u': 'a', 'r': 'y', 'y': 'r', 'k': 'm', 'm': 'k',
+		'b': 'v', 'v': 'b', 'd': 'h', 'h': 'd', 's': 's', 'w': 'w', 'n': 'n'}
+	for c := 0; c < 256; c++ {
+		in := gts.New(nil, nil, []byte{byte(c), 'a', byte(c)})
+		res := o.Run("complement-residue", true, "seq_complement", seqSx(in))
+		out := gts.Complement(in).Bytes()
+		want := byte(c)
+		lc := byte(c) | 0x20
+		if w, ok := pairs[lc]; ok && ((c >= 'a' && c <= 'z') || (c >= 'A' && c <= 'Z')) {
+			want = w
+			if c < 'a' {
+				want = w - 0x20
+			}
+		}
+		// s, w, n are not in gts's table: they stay as they are, which is also their complement
+		if len(out) != 3 || out[0] != want || out[2] != want || out[1] != 't' {
+			o.Violate("complement-residues", join("seq_complement", seqSx(in)), fmt.Sprintf("%q -> %q, want %q %s", []byte{byte(c)}, out, []byte{want}, res))
+		}
+		if c != 'u' && c != 'U' {
+			back := gts.Complement(gts.Complement(in)).Bytes()
+			if len(back) != 3 || back[0] != byte(c) {
+				o.Violate("complement-not-involution", join("seq_complement", seqSx(in)), fmt.Sprintf("%q -> %q", []byte{byte(c)}, back))
+			}
+		}
+	}
+	seqb := []byte("acbdhvkm")
 	for k, l := range fam {
 		if o.Tier != "thorough" && isMulti(l) && k%3 != int(o.Seed%3) {
 			continue
@@ -1178,8 +1226,17 @@ func runC10(o *Out) {
 	}
 	// cut sets and concat
 	cuts := [][]int{{}, {3}, {0}, {L}, {2, 5}, {2, 2}, {1, 4, 6}, {0, 4, L}, {1, 3, 5, 7}}
-	for k, l := range fam {
-		if o.Tier != "thorough" && k%3 != int(o.Seed%3) {
+	// features of three and four parts: a piece may hold an inner part only
+	manyParts := []gts.Location{
+		gts.Join(gts.Range(0, 1), gts.Range(3, 4), gts.Range(6, 8)),
+		gts.Order(gts.Range(0, 1), gts.Point(3), gts.Range(6, 8)),
+		gts.Complemented{Location: gts.Join(gts.Range(0, 2), gts.Range(3, 4), gts.Range(5, 6), gts.Range(7, 8))},
+		gts.Join(gts.Range(6, 8), gts.Range(3, 4), gts.Range(0, 1)),
+		gts.Join(gts.PartialRange(0, 1, gts.Partial5), gts.Range(2, 4), gts.PartialRange(5, 7, gts.Partial3)),
+	}
+	famC := append(append([]gts.Location(nil), manyParts...), fam...)
+	for k, l := range famC {
+		if o.Tier != "thorough" && k >= len(manyParts) && (k-len(manyParts))%3 != int(o.Seed%3) {
 			continue
 		}
 		var hf gts.FeatureSlice
